@@ -324,6 +324,16 @@ fn phase1(
                 }
             }
         }
+        if has(cfg, "C06") {
+            // the in-place result must render (and re-parse) like the other one
+            let t1 = format!("{}", n1);
+            let t2 = format!("{}", n2);
+            if t1 != t2 {
+                rep.violation("C06", "rendering_differs_between_entry_points", json!({"fen": fen, "move": [f, t, p], "make_move_new": t1, "make_move": t2}));
+            } else if Board::from_str(&t2).map(|x| x != n2).unwrap_or(true) {
+                rep.violation("C06", "successor_rendering_does_not_round_trip", json!({"fen": fen, "move": [f, t, p], "rendered": t2}));
+            }
+        }
         if has(cfg, "C04") && n1.status() != n2.status() {
             rep.violation("C04", "status_differs_between_entry_points", json!({"fen": fen, "move": [f, t, p],
                 "after_make_move_new": format!("{:?}", n1.status()), "after_make_move": format!("{:?}", n2.status())}));
